@@ -701,6 +701,12 @@ class Interp(object):
                         isinstance(d, ast.Name) and d.id == 'property'
                         for d in m.decorator_list):
                     return self.call_func(f, [], {}, obj)
+                decs = [d.id for d in m.decorator_list
+                        if isinstance(d, ast.Name)]
+                if 'staticmethod' in decs:
+                    return f
+                if 'classmethod' in decs:
+                    return Bound(f, ClassV(obj.ci))
                 return Bound(f, obj)
             if m is not None:
                 # class attribute (possibly an alias of another method)
